@@ -602,8 +602,24 @@ class C04(Prop):
                     if tier != "quick":
                         race_cases.append({"lines": cfg + [f"race {k} {a_} / {b_}", "consume 0 1 atp 1 10", "regen 0 200 atp"],
                                            "note": "overlapping calls, then the history goes on"})
+        # public attributes re-assigned after construction: (nothing | a debt-taking spend | income) ; one assignment ; every
+        # history of <= 2 (quick) / 3 ops over an 8-op alphabet
+        scfg = ["new 5 0 3 10 1 2", "new 0 0 0 5 1 2"]
+        sets = ["set 0 max_debt 0", "set 0 max_debt 2", "set 0 max_debt 30", "set 0 max_atp 2", "set 0 max_atp 50", "set 0 atp 0",
+                "set 0 atp 9", "set 0 nadh 9", "set 0 max_nadh 1", "set 0 gtp 4", "set 0 max_gtp 6"]
+        spre = [[], ["consume 0 12 atp 1 10"], ["consume 0 4 atp 0 10", "regen 0 1 atp"]]
+        salpha = ["consume 0 7 atp 1 10", "consume 0 3 atp 0 10", "consume 0 2 gtp 1 10", "regen 0 6 atp", "regen 0 4 nadh",
+                  "transfer 1 0 0 atp", "transfer 0 1 3 atp", "convert 0 4"]
+        set_cases = []
+        for pre_ in spre:
+            for st_ in sets:
+                for k in range(1, depth):
+                    for ops in itertools.product(salpha, repeat=k):
+                        set_cases.append({"lines": scfg + pre_ + [st_] + list(ops), "note": f"public attribute assigned, depth {k}"})
         return [{"name": f"all histories of <= {depth} ops over a 13-op alphabet on 3 two-store configurations",
                  "cases": cases},
+                {"name": f"3 preludes x 11 assignments of a public attribute x all histories of <= {depth - 1} ops over an 8-op alphabet",
+                 "cases": set_cases},
                 {"name": f"all histories of <= {depth - 1} ops over a 17-op alphabet on a colony whose budgets / reserves / debt "
                          "limits lie beyond the range of a C double (10^310, 2^1030)", "cases": hcases},
                 {"name": "all ordered pairs of overlapping calls over a 13-call alphabet x preemption before the 1st / 2nd lock "
